@@ -745,7 +745,7 @@ _run_clauses = run
 def run(prog, rep):
     _run_clauses(prog, rep)
     from plint.wiring import check_zero_init
-    check_zero_init(rep, "C16.3", prog, ['pinifile.c'], 3)
+    check_zero_init(rep, "C16.3", prog, ['pinifile.c'], 1)
 
 # generic robustness battery: renaming every local/parameter in these files must not change any verdict
 RENAME_LOCALS = ['src/pinifile.c']
